@@ -209,7 +209,8 @@ def r14_4(ctx):
                           f"`{var} = {src}` is stored for the final Style(...) call without a preceding validated Color.parse({src}) in the same branch: an invalid colour word raises ColorParseError instead of StyleSyntaxError")
     ctx.floor(n_a, 2, "colour word stores in Style.parse")
     # (b)
-    dl = ctx.repo.fn("ansi:AnsiDecoder.decode_line")
+    from .c19 import _sgr_fn
+    dl = _sgr_fn(ctx)
     am = dl.module
     calls = [n for n in walk_local(dl.node) if isinstance(n, ast.Call) and norm(n.func).endswith("Style.parse")]
     for c in calls:
